@@ -52,6 +52,45 @@ CLAIMED.update({
         technique="Lean 4 lock-step (bisimulation-style) proof over histories + differential correspondence on four forms"),
 })
 
+CLAIMED.update({
+    "C10": dict(
+        text=("Proof: neutral_mass inverts mass_charge_ratio for every non-zero charge (field identity over Q); the "
+              "guarded conversion is the identity at charge 0 and strictly increasing otherwise; the Poisson pattern "
+              "at charge z is the neutral pattern with only m/z rescaled (theorem).  For the convolution and BRAIN "
+              "generators the same statement is checked on the implementation itself (pattern at charge z against "
+              "pattern at charge 0 of the same call: bit-identical intensities, m/z to 1e-9), which needs no model."),
+        design_ref="§7.10",
+        note=NOTE_COMMON + " Partial: the charge theorems for the convolution and BRAIN generators rest on the impl-vs-impl comparison plus chargedMz_strictMono (sort commutes with rescaling); f64 rounding not modelled.",
+        technique="Lean 4 field/order proofs over Q + impl-vs-impl differential check across charges"),
+    "C13": dict(
+        text=("Proof over exact rationals: normalize sums to 1 and preserves ratios, m/z, origin; scale_by/shift/"
+              "clone_shifted are pointwise; the truncation loop is proved to compute the shortest non-empty prefix "
+              "reaching the threshold (all peaks when never reached) via a loop invariant; ignore_below is the "
+              "order-preserving filter; both renormalise.  Tied to the code by running identical dyadic inputs "
+              "(exact in f64) through the real operations and the model."),
+        design_ref="§7.13",
+        note=NOTE_COMMON + " Partial (floating point): theorems are over Q; f64 results compared to the exact values at 1e-11 relative, comparisons within 1e-9 of a threshold on inexact inputs skipped and counted.",
+        technique="Lean 4 list/field proofs with a loop invariant + differential correspondence on exact dyadic inputs"),
+    "C14": dict(
+        text=("Proof over exact rationals: the fused truncate/filter/shift/normalise operation returns the same peaks "
+              "as the step-wise pipeline (algebraic proof for every non-empty positive pattern and all thresholds); "
+              "clone_drop_last and slice_normalized are their definitions, an invalid range is the slice panic; "
+              "incremental_truncation equals its specification (induction on the index, cumulative-sum lemma); "
+              "pattern equality is length equality plus pointwise tolerance."),
+        design_ref="§7.14",
+        note=NOTE_COMMON + " Partial (floating point) as for C13.",
+        technique="Lean 4 algebraic and inductive proofs over Q + differential correspondence"),
+    "C15": dict(
+        text=("Proof over exact rationals: length n, non-negative intensities summing to 1, m/z ladder and spacing, "
+              "the term ratio law inside the loop, count in 1..=maxIter, first-index (minimality) characterisation of "
+              "the search loop, and monotonicity in the threshold — the last also for an order-generic loop of which "
+              "the f64 code is an instance.  Model tied to the code by differential runs; constants (1800, "
+              "1.0033548378, 255, proton) are re-extracted from the source on every run."),
+        design_ref="§7.15",
+        note=NOTE_COMMON + " Partial (floating point): overflow branches are outside the Q model; for masses up to 1e9 only length, sum, spacing, range and monotonicity are checked, on the implementation.",
+        technique="Lean 4 loop-invariant proofs over Q (+ order-generic monotonicity) + differential correspondence"),
+})
+
 PENDING_REASON = "check not built yet in this session; no claim is made until its model, theorems and correspondence run exist"
 
 
